@@ -1096,9 +1096,9 @@ static int run_stress(const std::string &backend, unsigned seed, int nthreads, i
 {
   ChanCfg c;
   c.backend  = backend_of(backend);
-  // no ARES_FLAG_STAYOPEN here: with it a request sent on an idle kept-open connection never
-  // times out (KF-C07-1, decided deterministically by C07_THR) and the queue would not drain
-  c.stayopen = false;
+  // odd seeds keep idle connections open (ARES_FLAG_STAYOPEN): requests are then also sent on
+  // idle kept-open connections (the situation of the former KF-C07-1: the queue must still drain)
+  c.stayopen = (seed & 1) != 0;
   c.udpmax   = (seed & 2) ? 3 : 0;
   std::string label = "stress." + backend + "." + std::to_string(seed);
   fprintf(stderr, "## begin %s\n", label.c_str());
